@@ -162,6 +162,31 @@ def transpileV (T : Decomp.Tables) (pre : Bool) (spec : DeviceSpec) (N : Nat) (g
     | .error e => .error e
     | .ok g1 => nativeStage T spec g1
 
+/-! ## the register of the circuit against the register of the processor (`fixes/C13-2.patch`)
+
+`transpile` is handed a circuit whose `qc.N` need not be the processor's `num_qubits`.  The code as
+found routes with `qc.N` whatever the processor's size (a ring device then closes the ring between
+the first and the last qubit *of the circuit*) and lets a circuit on too many qubits through.  After
+`fixes/C13-2.patch` `transpile` refuses `qc.N > num_qubits` (`ValueError`), and the ring device routes a
+circuit with `qc.N < num_qubits` on the open chain.  Both are REGENERATED from the source:
+`guard` (does `transpile` begin with the size check) and `specSmall` (the device spec in force when
+`qc.N < num_qubits`; equal to `spec` when `topology_map` does not look at the sizes). -/
+
+inductive ErrD
+  /-- `ValueError`: the circuit acts on more qubits than the processor has -/
+  | size
+  | inner (e : Err)
+deriving DecidableEq, Repr
+
+/-- `processor.transpile(qc).gates` for `processor.num_qubits = M`, `qc.N = N`, `qc.gates = gs` -/
+def transpileD (T : Decomp.Tables) (pre guard : Bool) (spec specSmall : DeviceSpec) (M N : Nat)
+    (gs : List Gate) : Except ErrD (List Gate) :=
+  if guard && decide (M < N) then .error .size
+  else
+    match transpileV T pre (if N < M then specSmall else spec) N gs with
+    | .ok out => .ok out
+    | .error e => .error (.inner e)
+
 /-! ## what the property asks of the result (decidable, also evaluated by the driver) -/
 
 /-- the hardware couples `i` and `j` directly -/
